@@ -1320,7 +1320,7 @@ class Executor(object):
                 a = ([fv.selfv] if fv.selfv is not None else []) + list(args)
                 return self.call_function(st, fv.target, a, kwargs, node)
             if fv.kind == 'ghost':
-                return [(st, self.call_ghost(st, fv.target, args))]
+                return [(st, self.call_ghost(st, fv.target, args, name=getattr(fv, 'name', None)))]
             if fv.kind == 'lambda':
                 lam, env, mod = fv.target
                 sub_env = dict(env)
@@ -1358,7 +1358,7 @@ class Executor(object):
         except Exception:
             return '<call>'
 
-    def call_ghost(self, st, g, args):
+    def call_ghost(self, st, g, args, name=None):
         params, body = g
         if callable(body):
             return body(self, st, *args)
@@ -1367,7 +1367,52 @@ class Executor(object):
         sub.env = dict(zip(params, args))
         sub.env.update({k: v for k, v in st.env.items() if k.startswith('_')})
         sub.bound = ()
-        return self.ev1(sub, body)
+        val = self.ev1(sub, body)
+        if name is not None and name in getattr(self.reg, 'opaque_ghosts', ()):
+            app = self._ghost_app(st, name, args, val)
+            if name in ((self.cur_target or {}).get('reveal') or ()):
+                st.assume(eq(app, val))          # the definition, visible where the contract asks for it
+                return val
+            return app
+        return val
+
+    def _ghost_app(self, st, name, args, val):
+        """the opaque view of a ghost: an uninterpreted function applied to the flattened arguments"""
+        terms = []
+
+        def flat(v, depth=0):
+            if isinstance(v, (VInt, VReal, VBool, VStr)):
+                terms.append(v.t if not isinstance(v, VBool) else v.t)
+            elif isinstance(v, VOpaque):
+                terms.append(v.t)
+            elif isinstance(v, VNone):
+                pass
+            elif isinstance(v, VOpt):
+                flat(v.val, depth)      # the ghost is about the value (its body would not accept None anyway)
+            elif isinstance(v, VSeq) and v.concrete:
+                for x in v.items:
+                    flat(x, depth)
+            elif isinstance(v, VObj) and depth < 2 and not v.cls.startswith('$'):
+                for f_ in sorted(st.heap.get(v.ref, {})):
+                    if not f_.startswith('$'):
+                        flat(st.heap[v.ref][f_], depth + 1)
+            else:
+                raise Unsupported('opaque ghost %s: argument %r cannot be flattened' % (name, v))
+        for a in args:
+            flat(a)
+        if isinstance(val, VStr):
+            rs, wrap = z3.StringSort(), VStr
+        elif isinstance(val, VInt):
+            rs, wrap = z3.IntSort(), VInt
+        elif isinstance(val, VReal):
+            rs, wrap = z3.RealSort(), VReal
+        elif isinstance(val, VBool):
+            rs, wrap = z3.BoolSort(), VBool
+        else:
+            raise Unsupported('opaque ghost %s: result %r' % (name, val))
+        terms = [t if z3.is_expr(t) else z3.BoolVal(bool(t)) for t in terms]
+        f = z3.Function('ghost_' + name + '_%d' % len(terms), *([t.sort() for t in terms] + [rs]))
+        return wrap(f(*terms))
 
     def instantiate(self, st, ci, args, kwargs, node):
         if ci.key in self.B.CTOR_STUBS:
